@@ -13,7 +13,7 @@
      get_nonoverlapping_blocks   the while loop with explicit fuel (NOutOfFuel / NAssert = error values)       *)
 From Coq Require Import ZArith List Bool Arith Sorted.
 From WH.Model Require Import Stats.
-From WH.Proofs Require Import StatsPieces StatsRows StatsSpec StatsAll StatsProofs.
+From WH.Proofs Require Import StatsPieces StatsRows StatsSpec StatsAll StatsProofs StatsGtf StatsRun.
 Import ListNotations.
 Open Scope Z_scope.
 
@@ -149,6 +149,39 @@ Theorem C12_all_row_additive : forall (R : rules) (chrlen : Z -> option Z) (crs 
     dstats_int_eqb d (row_sum (map cr_row crs)) = true.
 Proof. exact all_row_additive. Qed.
 Print Assumptions C12_all_row_additive.
+
+(* ------------------------------------------------------------------------------------------------
+   GTF (repaired rules): every written feature lies inside the extent of the phase set it names and the
+   features of a chromosome are written from left to right without overlap (gtf_ok, the check the
+   harness evaluates on the implementation's GTF).                                                     *)
+Theorem C12_gtf_features_within_sets : forall (only_snvs : bool) (recs : list vrec),
+  sorted_recs only_snvs recs ->
+  gtf_ok (s_blocklist (spec_of only_snvs recs)) None
+         (gtf_finish (get_phase_blocks repaired_rules (map row_of (counted only_snvs recs)))) = true.
+Proof. exact gtf_ok_chrom. Qed.
+Print Assumptions C12_gtf_features_within_sets.
+
+(* ------------------------------------------------------------------------------------------------
+   The whole run (repaired rules): for every file — any number of chromosomes (each one contiguous
+   group of records, accepted by VcfReader), with and without --only-snvs, with any list of distinct
+   --chromosome names (names absent from the file included; with an index: names known to the header),
+   with and without an index — `stats` ends normally and its complete output (per-chromosome rows in
+   output order, ALL row, block list, GTF) passes l1_run: EXACTLY the specification check (L1) that the
+   correspondence harness evaluates in Coq on the real implementation's outputs:
+     every reported row: identities, the ten counts = independent counts, length bound, block list = one
+     line per phase set (true extent, size), GTF features inside their sets;  ALL row = field-wise sum;
+     without --chromosome every chromosome is reported in file order, with it exactly the requested ones. *)
+Theorem C12_run_conforms_repaired :
+  forall (only_snvs : bool) (header : list (Z * option Z)) (groups : list (Z * list vrec)) (given : list Z),
+  NoDup (map fst groups) ->
+  (forall g, In g groups -> sorted_recs only_snvs (snd g)) ->
+  forall indexed : bool,
+  NoDup given ->
+  (indexed = true -> forall c, In c given -> In c (map fst header)) ->
+  exists out, run_stats repaired_rules only_snvs indexed header groups given = ROk out /\
+              l1_run only_snvs groups given out = true.
+Proof. exact run_stats_spec. Qed.
+Print Assumptions C12_run_conforms_repaired.
 
 (* ------------------------------------------------------------------------------------------------
    non-vacuity                                                                                         *)
